@@ -44,32 +44,41 @@ Section Trusted.
     | _ => None
     end.
 
+  (* one condition of the inner loop: None = skipped (`continue`), Some = a CREATE_COIN that is pushed *)
+  Definition ar_condition (c : sexp) : res (option (bytes * N * option bytes)) :=
+    op <- first c ;;
+    match op with
+    | Pair _ _ => Ok None
+    | Atom opb =>
+        if negb (bytes_eqb opb [n2b CREATE_COIN]) then Ok None
+        else
+          c1 <- rest c ;;
+          match c1 with
+          | Pair pht (Pair amount hint) =>
+              match bytes32_of pht with
+              | None => Err InvalidCondition
+              | Some ph =>
+                  amt <- parse_amount amount InvalidCoinAmount ;;
+                  Ok (Some (ph, amt, ar_hint hint))
+              end
+          | _ => Err InvalidCondition
+          end
+    end.
+
+  Definition ar_push (spend_id : bytes) (r : option (bytes * N * option bytes)) (acc : list (coin * option bytes))
+    : list (coin * option bytes) :=
+    match r with
+    | Some (ph, amt, h) => ({| co_parent := spend_id; co_ph := ph; co_amount := amt |}, h) :: acc
+    | None => acc
+    end.
+
   (* the inner loop over one spend's conditions; validation_error::next rejects a non-nil terminator *)
   Fixpoint ar_conditions (iter : sexp) (spend_id : bytes) (acc : list (coin * option bytes))
     : res (list (coin * option bytes)) :=
     match iter with
     | Atom [] => Ok acc
     | Atom _ => Err InvalidCondition
-    | Pair c nxt =>
-        op <- first c ;;
-        match op with
-        | Pair _ _ => ar_conditions nxt spend_id acc
-        | Atom opb =>
-            if negb (bytes_eqb opb [n2b CREATE_COIN]) then ar_conditions nxt spend_id acc
-            else
-              c1 <- rest c ;;
-              match c1 with
-              | Pair pht (Pair amount hint) =>
-                  match bytes32_of pht with
-                  | None => Err InvalidCondition
-                  | Some ph =>
-                      amt <- parse_amount amount InvalidCoinAmount ;;
-                      ar_conditions nxt spend_id
-                        (({| co_parent := spend_id; co_ph := ph; co_amount := amt |}, ar_hint hint) :: acc)
-                  end
-              | _ => Err InvalidCondition
-              end
-        end
+    | Pair c nxt => r <- ar_condition c ;; ar_conditions nxt spend_id (ar_push spend_id r acc)
     end.
 
   Fixpoint ar_loop (iter : sexp) (cost_left : N) (adds : list (coin * option bytes)) (rems : list (bytes * coin))
